@@ -1528,7 +1528,7 @@ func runC18(cfg Config, r *Result) {
 			var err error
 			ok := false
 			learned := 0
-			for attempt := 0; attempt < 12 && !ok; attempt++ {
+			for attempt := 0; attempt < 20 && !ok; attempt++ {
 				sc := s
 				if learned > 0 {
 					sc.Fault.When = learned // the per-thread index seen in the run that was missed
